@@ -646,8 +646,8 @@ func (g *vfC40Gen) queryText() (string, bool, string) {
 		{fmt.Sprintf("%s where a in (1,2,3) sort a, k", T), true, T},
 		{T + " project k, a sort k", true, ""},
 		{T + " project a", false, ""},
-		{T + " extend x = a * 2, y = k $ 'z' sort k", true, T},
-		{T + " rename a to aa sort k", true, T},
+		{T + " extend x = a * 2, y = k $ 'z' sort k", true, ""},
+		{T + " rename a to aa sort k", true, ""},
 		{T + " summarize count, total a, max k", false, ""},
 		{T + " summarize a, count sort a", true, ""},
 		{T + " join " + U + " sort k", true, ""},
@@ -767,10 +767,14 @@ func (g *vfC40Gen) next(step, steps int) *vfC40Op {
 				continue
 			}
 			q := g.queries[r.IntN(len(g.queries))]
-			if !q.sorted {
-				return &vfC40Op{kind: "scan", h: q.h, s: "k"}
+			keycol := ""
+			if q.table != "" {
+				keycol = "k" // plain single-table query: remember the offsets of the rows for update/erase
 			}
-			return &vfC40Op{kind: "get", h: q.h, dir: []Dir{Next, Next, Next, Prev}[r.IntN(4)], s: "k"}
+			if !q.sorted {
+				return &vfC40Op{kind: "scan", h: q.h, s: keycol}
+			}
+			return &vfC40Op{kind: "get", h: q.h, dir: []Dir{Next, Next, Next, Prev}[r.IntN(4)], s: keycol}
 		case x < 66: // read from a cursor
 			if len(g.cursors) == 0 || len(g.trans) == 0 {
 				continue
@@ -780,7 +784,11 @@ func (g *vfC40Gen) next(step, steps int) *vfC40Op {
 				continue
 			}
 			t := g.trans[r.IntN(len(g.trans))]
-			return &vfC40Op{kind: "cget", h: c.h, h2: t.h, dir: []Dir{Next, Next, Prev}[r.IntN(3)], s: "k"}
+			keycol := ""
+			if c.table != "" {
+				keycol = "k"
+			}
+			return &vfC40Op{kind: "cget", h: c.h, h2: t.h, dir: []Dir{Next, Next, Prev}[r.IntN(3)], s: keycol}
 		case x < 72: // header / keys / order / strategy / rewind / close
 			var all []vfC40H
 			all = append(append(all, g.queries...), g.cursors...)
@@ -822,6 +830,7 @@ func (g *vfC40Gen) next(step, steps int) *vfC40Op {
 			return &vfC40Op{kind: "output", h: q.h, rec: g.record(k)}
 		case x < 86: // get-one
 			var val Value
+			keycol := "k"
 			dir := []Dir{Only, Next, Prev, Any, Strat}[r.IntN(5)]
 			ob := &SuObject{}
 			switch r.IntN(5) {
@@ -836,11 +845,14 @@ func (g *vfC40Gen) next(step, steps int) *vfC40Op {
 			case 3:
 				ob.Set(SuStr("query"), SuStr(U+" sort k"))
 			default:
-				text, _, _ := g.queryText()
+				text, _, tbl := g.queryText()
 				ob.Add(SuStr(text))
+				if tbl == "" {
+					keycol = ""
+				}
 			}
 			val = ob
-			op := &vfC40Op{kind: "getone", val: val, dir: dir, s: "k"}
+			op := &vfC40Op{kind: "getone", val: val, dir: dir, s: keycol}
 			if t, ok := g.pickTran(); ok && r.IntN(2) == 0 {
 				op.h2 = t.h
 			}
